@@ -27,3 +27,6 @@ ASSUMPTIONS = [
     "cross-partition agreement is asserted with the same tolerance, not bitwise (the statement does not promise bitwise)",
     "skew/kurtosis compared only when n >= 8 and the channel is not constant; kurtosis of a constant channel is not constrained",
 ]
+
+# dimensions added in seeded rounds 6 and 7
+PROBES = list(PROBES) + ["merged-accumulator-fed-the-rest-of-the-stream", "chunks-handed-over-in-one-reused-buffer"]
